@@ -932,6 +932,65 @@ def r10_early_passes_do_not_underflow(ctx):
     ctx.floor('C09.R10', 'checked subtractions in the early passes', n, 4)
 
 
+def r11_no_import_processing_without_docs(ctx):
+    ctx.rule('C09.R11', 'P1 (sibling of C09.R4, one level down): `register_imported_components` looks every imported package up in the crate collection and '
+             'treats a miss as `unreachable!` — "the JSON documentation has already been generated at this point". That belief is established by '
+             '`CrateCollection::bootstrap` in `UserComponentDb::build` (through `precompute_crate_docs`): when bootstrap fails, the failure is '
+             'reported AND the build stops there — in the function that calls bootstrap every path from the Err edge returns an `Err`, and '
+             '`UserComponentDb::build` propagates that Err (`?`) before it calls `register_imported_components`. Otherwise a blueprint with any '
+             'import, on a machine whose docs toolchain cannot emit rustdoc JSON, ends in a panic with nothing printed.')
+    BUILD = PX + 'analyses::user_components::db::UserComponentDb::build'
+    build = ctx.fb.body('pavexc', BUILD)
+    if not ctx.need('C09.R11', 'user_components::db::UserComponentDb::build', build):
+        return
+    regs = [bb for bb, t in build.calls() if strip_generics(callee(t) or '').endswith('annotations::register_imported_components')]
+    if not ctx.need('C09.R11', 'register_imported_components called from UserComponentDb::build', regs):
+        return
+    sites = []
+    for b in ctx.fb.bodies('pavexc'):
+        if b.is_promoted or '::user_components::db::' not in b.nid:
+            continue
+        for bb, t in b.calls():
+            if strip_generics(callee(t) or '').endswith('collection::CrateCollection::bootstrap'):
+                sites.append((b, bb, t))
+    if not ctx.need('C09.R11', 'CrateCollection::bootstrap called from user_components::db', sites):
+        return
+    must = must_push(ctx)
+    for b, bb, t in sites:
+        d = t['dest']['l']
+        err_t = None
+        for sb in b.reachable(b.succ(bb)):
+            w = b.term(sb)
+            if w and w['k'] == 'switch' and 'enum' in w and strip_generics(w['enum']) == 'core::result::Result' and w['src']['l'] == d and not [e for e in w['src'].get('p', []) if e != '*']:
+                e = switch_edges(w)
+                err_t = [e['Err']] if 'Err' in e else [x for x in b.succ(sb) if x != e.get('Ok')]
+                break
+        fn = b.nroot.replace(PX + 'analyses::', '')
+        if err_t is None:
+            k, loc = _err_handling(ctx, b, bb, t, must)
+            ctx.ob('C09.R11', 'docs-failure-stops-the-build|%s' % fn, k == 'P', loc, 'the result of bootstrap is %s' % ('propagated' if k == 'P' else 'not matched on in a way the rule can follow'))
+            continue
+        if b.nroot == BUILD:
+            hit = b.reachable(err_t) & set(regs)
+            ctx.ob('C09.R11', 'docs-failure-stops-the-build|%s' % fn, not hit, b.loc(sorted(hit)[0]) if hit else b.loc(bb, t),
+                   'from the Err edge of bootstrap, register_imported_components is unreachable: %s' % (not hit))
+            continue
+        # (1) the helper returns Err on every path from the Err edge
+        errs = {xb for xb, j, st in b.all_assigns() if st['lhs'] == {'l': 0} and st['rv']['k'] == 'agg' and st['rv'].get('var') == 'Err'}
+        returns_unit = b.locals[0] == '()'
+        free = b.reachable(err_t, avoid=errs) & set(b.return_blocks())
+        ok1 = not returns_unit and bool(errs) and not free
+        # (2) build propagates the helper's Err before it registers the imported components
+        ok2, where = False, b.loc(bb, t)
+        for cb, ct in build.calls():
+            if strip_generics(callee(ct) or '') == b.nroot:
+                k, loc = _err_handling(ctx, build, cb, ct, must)
+                where = loc
+                ok2 = k == 'P' and all(build.dominates(cb, r) for r in regs)
+        ctx.ob('C09.R11', 'docs-failure-stops-the-build|%s' % fn, ok1 and ok2, where,
+               '%s returns Err on every path from the Err edge of bootstrap: %s; UserComponentDb::build propagates it before register_imported_components: %s' % (fn.split('::')[-1], ok1, ok2))
+
+
 def check(ctx):
     r4_nothing_assumes_success_before_the_gate(ctx)
     r1_no_silent_failure(ctx)
@@ -943,3 +1002,4 @@ def check(ctx):
     r8_documentation_errors_are_reported(ctx)
     r9_persisted_ids_are_checked_against_the_graph(ctx)
     r10_early_passes_do_not_underflow(ctx)
+    r11_no_import_processing_without_docs(ctx)
